@@ -16,6 +16,20 @@ def _calls(n) -> List[ast.Call]:
     return [x for x in walk_shallow(e) if isinstance(x, ast.Call)] if e is not None else []
 
 
+def fallback_keeps_result(chk: Check, rule: str) -> None:
+    """When the outputs do not satisfy the spec, on_finish falls back to FINISHED with the SAME result and successful=False (shared with C09: the result of a work chain
+    is the return_ code / the value of its last step whatever the outputs look like)."""
+    of = chk.prog.func('processes.Process.on_finish')
+    built = [c for c in calls_in_func(of) if chk.ctx.calls.state_ctor_label(of, c) is not None]
+    ok = len(built) == 1 and repr(chk.ctx.calls.state_ctor_label(of, built[0])) == 'ProcessState.FINISHED'
+    if ok:
+        from ..rules import Resolver
+        rs = Resolver(of)
+        kws = {k.arg: norm(rs.expand(k.value)) for k in built[0].keywords}
+        ok = kws.get('result') == of.params[1] and kws.get('successful') == 'False'
+    chk.ob(rule, of, ok, 'the fallback is FINISHED with the SAME result and successful=False', node=built[0] if built else None, kind='same-result-unsuccessful')
+
+
 def run(chk: Check) -> None:
     prog = chk.prog
     # the end-of-run validation of the outputs goes through the same loop over the declared ports as the inputs do
@@ -157,12 +171,8 @@ def run(chk: Check) -> None:
     raises = [n for n in fcfg.nodes if n.kind == 'raisestmt' and n.ast.exc is not None and 'StateEntryFailed' in norm(n.ast.exc)]
     ok = len(raises) == 1 and ('T', 'validation_error') in f2.at(raises[0])
     chk.ob('PROV-downgrade', of, ok, 'invalid outputs make the entry fail over to another state (StateEntryFailed) -- only then', kind='raises-on-error')
+    fallback_keeps_result(chk, 'PROV-downgrade')
     built = [c for c in calls_in_func(of) if chk.ctx.calls.state_ctor_label(of, c) is not None]
-    ok = len(built) == 1 and repr(chk.ctx.calls.state_ctor_label(of, built[0])) == 'ProcessState.FINISHED'
-    if ok:
-        kws = {k.arg: norm(k.value) for k in built[0].keywords}
-        ok = kws.get('result') == of.params[1] and kws.get('successful') == 'False'
-    chk.ob('PROV-downgrade', of, ok, 'the fallback is FINISHED with the SAME result and successful=False', node=built[0] if built else None, kind='same-result-unsuccessful')
     if raises and built:
         arg = raises[0].ast.exc.args[0] if isinstance(raises[0].ast.exc, ast.Call) and raises[0].ast.exc.args else None
         ok = arg is not None and (arg is built[0] or (isinstance(arg, ast.Name) and any(isinstance(n, ast.Assign) and norm(n.targets[0]) == arg.id and n.value is built[0] for n in ast.walk(of.node))))
